@@ -348,3 +348,11 @@ func (p *Prog) ExtFunc(path, name string) *types.Func {
 	}
 	return LookupFunc(tp, name)
 }
+
+// PkgOfSSA returns the loaded package a source-level ssa function (or closure) belongs to.
+func (p *Prog) PkgOfSSA(f *ssa.Function) *packages.Package {
+	if f == nil || f.Pkg == nil || f.Pkg.Pkg == nil {
+		return nil
+	}
+	return p.ByPath[f.Pkg.Pkg.Path()]
+}
